@@ -51,6 +51,11 @@ func genCase(t *rapid.T) Case {
 	c.Polled = rapid.IntRange(0, 3).Draw(t, "polled")
 	c.ReadErr = rapid.SampledFrom([]int{-1, -1, -1, 0, 1, 5, 12}).Draw(t, "readerr")
 	c.ErrData = c.ReadErr >= 0 && rapid.Bool().Draw(t, "errdata")
+	if c.ErrData && rapid.Bool().Draw(t, "errdatafull") {
+		// the interesting state: both queues full when the failing read hands over its bytes
+		c.Unpolled = rapid.IntRange(22, 40).Draw(t, "unpolledfull")
+		c.Polled = 0
+	}
 	c.Cycles = rapid.SampledFrom([]int{0, 0, 1, 2, 3}).Draw(t, "cycles")
 	c.CycleInput = rapid.SampledFrom([]int{0, 1, 10, 11, 25}).Draw(t, "cycleinput")
 	c.ResizeAway = rapid.IntRange(0, 2).Draw(t, "resizeaway") == 0
@@ -62,6 +67,9 @@ func genCase(t *rapid.T) Case {
 		}
 	}
 	c.Last = rapid.SampledFrom([]string{"fini", "fini", "suspend"}).Draw(t, "last")
+	if c.ErrData && rapid.Bool().Draw(t, "errdatasuspend") {
+		c.Last = "suspend" // Fini has the quit channel to fall back on, Suspend has not
+	}
 	n := rapid.IntRange(0, 6).Draw(t, "npost")
 	for i := 0; i < n; i++ {
 		c.Post = append(c.Post, rapid.SampledFrom(postCalls).Draw(t, "post"))
